@@ -172,6 +172,53 @@ def boundary_triples():
                     yield dict(kind="game", game=g, t=t, prune=prune)
 
 
+def slow_rings():
+    """Planted: a ring of N tiles that is left towards the goal with probability 0.01 per lap.  Numbered along
+    the direction of travel one sweep carries a value round the whole ring, numbered against it only one tile:
+    the two presentations need about 1 400 and 1 400 x N sweeps."""
+    for N in (12, 20):
+        gamble, bad, good = N + 1, N + 2, N + 3
+        players, rewards, tl = [P1], [0], [[("enter", 1), ("gamble", gamble)]]
+        for k in range(1, N + 1):
+            nxt = k + 1 if k < N else 1
+            if k == N:
+                players.append(PR)
+                tl.append([(0.99, 1), (0.01, good)])
+            elif k == 5:
+                players.append(P2)
+                tl.append([("push", nxt)])
+            elif k == 7:
+                players.append(P1)
+                tl.append([("walk", nxt)])
+            else:
+                players.append(PR)
+                tl.append([(1, nxt)])
+            rewards.append(1)
+        players += [PR, PR, PR]
+        rewards += [3, 0, 0]
+        tl += [[(0.5, good), (0.5, bad)], [(1, bad)], [(1, good)]]
+        g = dict(rewards=rewards, players=players, transition_list=tl, final_states=[good])
+        pi = [0] + [N + 1 - k for k in range(1, N + 1)] + [gamble, bad, good]
+        t = dict(pi=pi, orders=[list(range(len(l))) for l in tl], rho={}, forder=[0], which="perm")
+        for prune in (True, False):
+            yield dict(kind="game", game=g, t=t, prune=prune, allow_slow=True)
+
+
+def wide_rows():
+    """Planted: a chance state with eleven successors (0.5 and ten times 0.05): the float sum of the row depends
+    on the order it is written in (it is exactly 1 in some orders and one ulp off in others)."""
+    row = [(0.5, 3)] + [(0.05, 1 + (i % 3)) for i in range(10)]
+    g = dict(rewards=[1, 0, 0, 2], players=[PR, PR, PR, PR],
+             transition_list=[row, [(1, 1)], [(1, 2)], [(0.5, 1), (0.5, 2)]], final_states=[1])
+    for shift in (1, 2, 5, 10):
+        order0 = [(i + shift) % 11 for i in range(11)]
+        for rev in (False, True):
+            o = list(reversed(order0)) if rev else order0
+            t = dict(pi=[0, 1, 2, 3], orders=[o, [0], [0], [0, 1]], rho={}, forder=[0], which="order")
+            for prune in (True, False):
+                yield dict(kind="game", game=g, t=t, prune=prune)
+
+
 def corridor_phase(tier):
     def gen():
         # index into games.corridor_games(): (d, ascending, owner) in generator order, 4 per d
@@ -185,6 +232,8 @@ def corridor_phase(tier):
 def phases(tier):
     return [Phase("rounding-boundary-triples", enum=boundary_triples,
                   note="two values 1e-12 apart across a 6-digit rounding boundary plus a third in the lower bucket, all orders"),
+            Phase("slow-rings-numbered-with-and-against-the-direction-of-travel", enum=slow_rings),
+            Phase("wide-chance-rows-in-other-orders", enum=wide_rows),
             Phase("deep-corridors", enum=corridor_phase(tier),
                   note="corridors of 200-1030 states: a renumbering changes how many sweeps a value needs to arrive"),
             Phase("medium-size-games", enum=medium_phase(tier), note="stopping games of 20-300 states, no oracle needed"),
@@ -272,7 +321,7 @@ def check_case(case):
     if changed and tgame["transition_list"] == game["transition_list"]:
         v.cls("identical_transition_lists_different_owners")
     if small:
-        facts = GameFacts(game)
+        facts = GameFacts(game, allow_slow=bool(case.get("allow_slow")))
         try:
             if facts.too_slow:
                 v.inconclusive = "T>300"
@@ -282,7 +331,7 @@ def check_case(case):
             v.inconclusive = f"oracle: {e}"
             return v
         a = Solved(facts, prune)
-        b = Solved(GameFacts(tgame), prune)
+        b = Solved(GameFacts(tgame, allow_slow=bool(case.get("allow_slow"))), prune)
         oa, ob = a.outcome, b.outcome
         dead2 = any(sum(1 for _, x in l if pstar[x] == 0) >= 2 for pl, l in zip(game["players"], game["transition_list"])
                     if pl != P2)
